@@ -471,8 +471,10 @@ check_gauss(const json& c)
         {
           const double gref = (sigma[a] == 0) ? (i == 0 ? 1. : 0.) : std::exp(-double(i) * double(i) / (2 * sigma[a] * sigma[a]));
           const double s = r(i) / R0;
-          vf::stats().maxi("gauss: kernel shape rel err", std::fabs(s - gref) / (gref + 1e-30));
-          VF_CHECK(std::fabs(s - gref) <= TOL_GAUSS * gref + 1e-30, "kernel along axis ", a + 1, " at ", i, " is ", s, " of the peak; a Gaussian with FWHM ",
+          // float rounding of sigma^2 is amplified by the exponent i^2/(2 sigma^2) in the far tail: tolerance relative to gref*(1+exponent)
+          const double amp = 1 + (sigma[a] == 0 ? 0. : double(i) * double(i) / (2 * sigma[a] * sigma[a]));
+          vf::stats().maxi("gauss: kernel shape rel err/(1+exponent)", std::fabs(s - gref) / (gref * amp + 1e-30));
+          VF_CHECK(std::fabs(s - gref) <= TOL_GAUSS * gref * amp + 1e-30, "kernel along axis ", a + 1, " at ", i, " is ", s, " of the peak; a Gaussian with FWHM ",
                    double(fw[a + 1]), " voxels gives ", gref);
           kk[a].k.c[std::size_t(i + L[a])] = gref;
           ssum += gref;
